@@ -21,11 +21,13 @@ Core == { O("Add", 0, 0, ""), O("Add", 4096, 0, ""), O("Add", 65535, 0, ""), O("
           O("RemoveRange", 0, 4096, ""), O("RemoveRange", 100, 4200, ""),
           \* half-open ranges at the universe edge: 65535 itself is never inside [a, 65535)
           O("RemoveRange", 0, 65535, ""), O("AddRange", 65000, 65535, ""), O("AddRange", 0, 65535, ""),
-          O("Clear", 0, 0, ""), O("Clone", 0, 0, ""), O("Codec", 0, 0, ""), O("Optimize", 0, 0, ""),
+          O("Clear", 0, 0, ""), O("Clone", 0, 0, ""), O("Codec", 0, 0, ""),
+          \* the set re-read from a RUN container of whatever size (the library only produces large ones itself)
+          O("AsRuns", 0, 0, ""),
           O("AddMany", 0, 0, "L1"),
           O("Or", 0, 0, "K3"), O("And", 0, 0, "K1"), O("Xor", 0, 0, "K2"), O("AndNot", 0, 0, "K4"),
           O("RAndNot", 0, 0, "K1") }
-Extra == { O("Add", 1, 0, ""), O("Add", 4095, 0, ""), O("Remove", 4095, 0, ""), O("Remove", 65535, 0, ""),
+Extra == { O("Optimize", 0, 0, ""), O("Add", 1, 0, ""), O("Add", 4095, 0, ""), O("Remove", 4095, 0, ""), O("Remove", 65535, 0, ""),
            O("AddRange", 0, 4095, ""), O("AddRange", 0, 4097, ""), O("AddRange", 1, 65535, ""),
            O("RemoveRange", 1, 4097, ""), O("RemoveRange", 65535, 65535, ""), O("RemoveRange", 60000, 65535, ""),
            O("AddMany", 0, 0, "L2"), O("AddMany", 0, 0, "L3"),
